@@ -212,6 +212,13 @@ func (d *defaultFs) Put(ctx context.Context, src io.Reader) (PutRes, error) {
 	// check if this root key already exists AND is valid
 	found, overwrite := existsAndValidBlob(ctx, d.store.backend, d.pather(root), content, lg)
 
+	if found && !overwrite {
+		// refresh the update time of the root key we are reusing (see writeBlob); if it cannot be refreshed, write it again
+		if ert := d.store.backend.Touch(ctx, d.pather(root)); ert != nil {
+			overwrite = true
+		}
+	}
+
 	if !found || overwrite {
 		if err = d.writeRootKey(ctx, root, content); err != nil {
 			return PutRes{Found: found}, err
